@@ -288,6 +288,13 @@ def alloc_lengths(prog, cn, fld):
         for e in p.events:
             if e.kind == "setfield" and e.base == SELF and e.name == fld:
                 v = e.value
+                if v[0] == "newb" and v[1] == "array" and len(v[3]) == 2 and v[3][0] == C("B") and v[3][1][0] == "call" and v[3][1][1] == ("g", "bytes") \
+                        and len(v[3][1][2]) == 1:
+                    length = v[3][1][2][0]  # array('B', bytes(n)): n one-byte elements
+                    for (b, n), fv in p.fields.items():
+                        if b == SELF and fv == length:
+                            out.add(("f", SELF, n, 0))
+                    out.add(strip_epochs(length))
                 if v[0] == "nary" and v[1] == "*":
                     arr = [x for x in v[2] if x[0] == "newb"]
                     rest = [x for x in v[2] if x[0] != "newb"]
